@@ -178,6 +178,10 @@ def run(ctx, scale=1):
     outs = core.model_lines(['eq %s %s' % (mtok(r['X']), mtok(r['Y'])) for r in recs])
     for r, ml in zip(recs, outs):
         if ml not in ('true', 'false'):
+            if ml.startswith('ctor-error') and r['obs'][0] == 'exc':      # a degenerate near-miss: model and implementation both refuse to build it
+                r['skip'] = True
+                ctx.stats['degenerate near-miss rejected by both constructors'] += 1
+                continue
             if r['X'][0] in 'GB' and ml.startswith('ctor-error'):      # a near-miss that is not a valid composite: the oracle decides
                 r['truth'] = same_set(r['X'], r['Y'])
                 ctx.stats['model-constructor-rejects-near-miss'] += 1
@@ -187,6 +191,8 @@ def run(ctx, scale=1):
         if r['X'][0] in 'GB' and r['truth'] != same_set(r['X'], r['Y']):
             raise RuntimeError('model equality and exact oracle differ: %s %s' % (mtok(r['X'])[:200], mtok(r['Y'])[:200]))
     for r in recs:
+        if r.get('skip'):
+            continue
         X, Y, t = r['X'], r['Y'], r['truth']
         key = mtok(X) + ' == ' + mtok(Y)
         ctx.count(key)
